@@ -918,7 +918,7 @@ func lifecycle(entries []common.Entry) {
 				s.SetCursorStyle(tcell.CursorStyleDefault, tcell.ColorReset)
 				s.Show()
 				step("SetCursorStyle")
-				s.SetTitle("Q Q")
+				s.SetTitle("Q\u00dcQ") // (U+00DC: its UTF-8 form contains the byte 9c, the 8-bit string terminator)
 				s.SetClipboard([]byte("Q"))
 				s.GetClipboard()
 				_ = s.Beep()
